@@ -68,6 +68,22 @@ def nat_observers(h):
                 h.check(fired == [1], 'observer:finalizer', (suffix_kind, data), 'fires exactly once', fired)
         finally:
             shutil.rmtree(d, ignore_errors=True)
+    # finalizer callbacks of every accepted shape, succeeding or failing AFTER their side effect (a TypeError of their own
+    # included): fired exactly once per pass of the stream; a failing callback fails the run
+    from dataflows import delete_resource
+    for shape in ('plain', 'stats', 'stats-default', 'kwargs'):
+        for fail in (None, TypeError, ValueError):
+            fired = []
+
+            def body(stats=None):
+                fired.append(1)
+                if fail is not None:
+                    raise fail('callback failed after doing its work')
+            cb = {'plain': lambda: body(), 'stats': lambda stats: body(stats), 'stats-default': lambda stats={}: body(stats),
+                  'kwargs': lambda **kw: body(kw.get('stats'))}[shape]
+            got = h.run(lambda: Flow([{'a': 1}, {'a': 2}], [{'b': 1}], finalizer(cb), delete_resource('res_2')).process())
+            h.check(fired == [1] and (got[0] == 'ok') == (fail is None), 'observer:finalizer', (shape, fail and fail.__name__),
+                    'fires exactly once; the run fails iff the callback fails', (fired, got[:2]))
 
 
 # ------------------------------------------------------------------------------------------------ C06
@@ -146,6 +162,38 @@ def nat_lookahead(h):
             # with a filter in the pipeline delivered rows are a subsequence; measure against rows that passed
             ok = (worst[0] <= BOUND if not filt else worst[0] <= N // 2 + BOUND)
             h.check(ok, 'lookahead:' + '+'.join(chosen), (chosen, N, shape), 'look-ahead <= %d' % BOUND, (got[0], worst[0]))
+        # histories / options the random stages do not reach
+        from dataflows import load
+        for case in ('load-limit_rows', 'checkpoint-after-an-interrupted-run', 'load-pair'):
+            for N in ([400, 3000] if h.tier == 'quick' else [400, 3000, 30000]):
+                pulled, delivered, worst = [0], [0], [0]
+
+                def source():
+                    for i in range(N):
+                        pulled[0] += 1
+                        yield {'a': i, 'b': 'x%d' % i}
+
+                def sink(rows):
+                    for r in rows:
+                        delivered[0] += 1
+                        worst[0] = max(worst[0], pulled[0] - delivered[0])
+                        yield r
+                desc = {'name': 'p', 'resources': [{'name': 'r', 'path': 'r.csv', 'schema': {'fields': [
+                    {'name': 'a', 'type': 'integer'}, {'name': 'b', 'type': 'string'}]}}]}
+                if case == 'load-limit_rows':
+                    lim = 25
+                    got = h.run(lambda: Flow(load((desc, [source()]), limit_rows=lim), sink).process())
+                elif case == 'load-pair':
+                    got = h.run(lambda: Flow(load((desc, [source()])), sink).process())
+                else:
+                    cp = os.path.join(d, 'cpi%d' % N)
+                    os.makedirs(os.path.join(cp, 'c'), exist_ok=True)
+                    with open(os.path.join(cp, 'c', 'stream.ndjson.active'), 'w') as f:
+                        f.write('{"leftover": "of a run that died while saving"}\n')
+                    got = h.run(lambda: Flow(source(), checkpoint('c', checkpoint_path=cp), sink).process())
+                # measured at every delivery AND once the run is over (rows read past the last delivered row count as well)
+                worst[0] = max(worst[0], pulled[0] - delivered[0])
+                h.check(got[0] == 'ok' and worst[0] <= BOUND, 'lookahead:' + case, (case, N), 'look-ahead <= %d' % BOUND, (got[:2], worst[0]))
     finally:
         shutil.rmtree(d, ignore_errors=True)
 
@@ -165,12 +213,14 @@ def nat_dump_stats(h):
         nres = h.rng.randint(1, 3)
         data = [[{'id': i, 't': h.rng.choice(['é' * h.rng.randint(0, 3), 'a,b', 'x\ny', '', 'plain'])} for i in range(h.rng.randint(0, 4))]
                 for _k in range(nres)]
+        if nres > 1 and h.rng.random() < 0.3:
+            data[1] = [dict(r) for r in data[0]]          # two resources with byte-identical output
         fmt = h.rng.choice(['csv', 'json'])
         zipped = h.rng.random() < 0.4
         hashpath = h.rng.random() < 0.4
         pretty = h.rng.random() < 0.5
         counters = {}
-        ckind = h.rng.choice(['default', 'renamed', 'nested', 'disabled'])
+        ckind = h.rng.choice(['default', 'renamed', 'nested', 'disabled', 'no-bytes'])
         names = dict(rr='count_of_rows', rb='bytes', rh='hash', pr='count_of_rows', pb='bytes', ph='hash')
         if ckind == 'renamed':
             names = dict(rr='rows', rb='size', rh='md5', pr='total_rows', pb='total_size', ph='digest')
@@ -181,6 +231,8 @@ def nat_dump_stats(h):
                         'datapackage-rowcount': names['pr'], 'datapackage-bytes': names['pb'], 'datapackage-hash': names['ph']}
         elif ckind == 'disabled':
             counters = {'resource-rowcount': None, 'datapackage-hash': None}
+        elif ckind == 'no-bytes':
+            counters = {'resource-bytes': None, 'datapackage-bytes': None}
         d = tempfile.mkdtemp(prefix='c09_')
         try:
             opts = dict(format=fmt, add_filehash_to_path=hashpath, pretty_descriptor=pretty, counters=counters)
@@ -208,7 +260,8 @@ def nat_dump_stats(h):
                 if not h.check(exists(p), 'dump:path', cfg, 'recorded path %r exists' % p, None):
                     continue
                 raw = read(p)
-                h.check(get(rdesc, names['rb']) == len(raw), 'dump:bytes', cfg, len(raw), get(rdesc, names['rb']))
+                if ckind != 'no-bytes':
+                    h.check(get(rdesc, names['rb']) == len(raw), 'dump:bytes', cfg, len(raw), get(rdesc, names['rb']))
                 h.check(get(rdesc, names['rh']) == hashlib.md5(raw).hexdigest(), 'dump:hash', cfg, hashlib.md5(raw).hexdigest(), get(rdesc, names['rh']))
                 if ckind != 'disabled':
                     h.check(get(rdesc, names['rr']) == len(rows), 'dump:rowcount', cfg, len(rows), get(rdesc, names['rr']))
@@ -216,13 +269,13 @@ def nat_dump_stats(h):
                     h.check(get(rdesc, 'count_of_rows') in (None, {}), 'dump:disabled-counter', cfg, 'absent', get(rdesc, 'count_of_rows'))
                 tot_b += len(raw)
                 tot_r += len(rows)
-            h.check(get(desc, names['pb']) == tot_b or ckind == 'nested', 'dump:package-bytes', cfg, tot_b, get(desc, names['pb']))
+            h.check(get(desc, names['pb']) == tot_b or ckind in ('nested', 'no-bytes'), 'dump:package-bytes', cfg, tot_b, get(desc, names['pb']))
             h.check(get(desc, names['pr']) == tot_r or ckind == 'nested', 'dump:package-rows', cfg, tot_r, get(desc, names['pr']))
             h.check(stats.get('count_of_rows') == get(desc, names['pr']), 'dump:stats-rows', cfg, get(desc, names['pr']), stats.get('count_of_rows'))
             h.check(stats.get('hash') == get(desc, names['ph']) or ckind == 'disabled', 'dump:stats-hash', cfg, get(desc, names['ph']), stats.get('hash'))
             # known finding F-C09-stats-bytes: stats['bytes'] additionally counts the size of datapackage.json
             h.cur = h.cur + '/stats-bytes'
-            h.check(stats.get('bytes') == get(desc, names['pb']) or ckind in ('nested', 'disabled'), 'dump:stats-bytes', cfg,
+            h.check(stats.get('bytes') == get(desc, names['pb']) or ckind in ('nested', 'disabled', 'no-bytes'), 'dump:stats-bytes', cfg,
                     get(desc, names['pb']), stats.get('bytes'))
             h.cur = h.cur[:-len('/stats-bytes')]
             # same data twice -> identical hashes
@@ -233,7 +286,7 @@ def nat_dump_stats(h):
                         got2[1][1].get('hash') == stats.get('hash'), 'dump:deterministic-hash', cfg, 'same hashes', None)
             # dumping a package that was loaded from an earlier dump: its descriptors already carry counters; the new ones must
             # describe the new files, not old + new
-            if not zipped and ckind != 'disabled' and any(data):
+            if not zipped and ckind not in ('disabled', 'no-bytes') and any(data):
                 from dataflows import load
                 got3 = h.run(lambda: Flow(load(os.path.join(d, 'a', 'datapackage.json')),
                                           dump_to_path(os.path.join(d, 'c'), **opts)).process())
@@ -247,16 +300,69 @@ def nat_dump_stats(h):
             shutil.rmtree(d, ignore_errors=True)
 
 
+def nat_dump_dropping_validator(h):
+    """a dumper whose own validator DROPS rows that do not cast (validator_options on_error=drop): the recorded row counts are the
+    number of data rows in the written file, not the number of rows that reached the dumper"""
+    import csv, io
+    from dataflows import Flow, dump_to_path, schema_validator
+    for _ in range(h.n(6, 40)):
+        n = h.rng.randint(1, 8)
+        bad = sorted(h.rng.sample(range(n), h.rng.randint(0, n)))
+        fmt = h.rng.choice(['csv', 'json'])
+
+        def spoil(rows):
+            for i, r in enumerate(rows):
+                if i in bad:
+                    r['id'] = 'not a number'
+                yield r
+        d = tempfile.mkdtemp(prefix='c09v_')
+        try:
+            got = h.run(lambda: Flow([{'id': i, 't': 'v%d' % i} for i in range(n)], spoil,
+                                     dump_to_path(os.path.join(d, 'o'), format=fmt,
+                                                  validator_options=dict(on_error=schema_validator.drop))).process())
+            cfg = (fmt, n, bad)
+            if not h.check(got[0] == 'ok', 'dump', cfg, 'dump succeeds', got[:2]):
+                continue
+            desc = json.load(open(os.path.join(d, 'o', 'datapackage.json')))
+            rdesc = desc['resources'][0]
+            raw = open(os.path.join(d, 'o', rdesc['path']), 'rb').read().decode('utf-8')
+            in_file = len(list(csv.reader(io.StringIO(raw, newline='')))) - 1 if fmt == 'csv' else len(json.loads(raw))
+            h.check(rdesc.get('count_of_rows') == in_file and desc.get('count_of_rows') == in_file and
+                    got[1][1].get('count_of_rows') == in_file, 'dump:rowcount-with-a-dropping-validator', cfg,
+                    'all three counts == %d data rows in the file' % in_file,
+                    (rdesc.get('count_of_rows'), desc.get('count_of_rows'), got[1][1].get('count_of_rows')))
+        finally:
+            shutil.rmtree(d, ignore_errors=True)
+
+
 # ------------------------------------------------------------------------------------------------ C19
 
 def nat_dump_crashpoints(h):
+    return _nat_dump_crashpoints(h)
+
+
+nat_dump_crashpoints.shards = 6
+
+
+def _nat_dump_crashpoints(h):
     """kill the dumping process at every copy / unlink / close performed by dump_to_path; whenever a parseable
     datapackage.json exists afterwards, every listed file exists with the recorded size and hash"""
     import hashlib
-    for _ in range(h.n(3, 40)):
+    for case0 in range(h.n(6, 42)):
+        case = case0 * h.shard[1] + h.shard[0]
         nres = h.rng.randint(1, 3)
         data = [[{'id': i, 't': 'v%d' % i} for i in range(h.rng.randint(0, 3))] for _k in range(nres)]
         fmt = h.rng.choice(['csv', 'json'])
+        # histories and options: an earlier, complete dump of same-named resources in the same process; content-addressed
+        # paths with byte-identical resources
+        earlier = case % 2 == 1
+        hashpath = case % 3 == 2
+        if hashpath:
+            # two resources with byte-identical output (also the 0-row boundary)
+            nres = max(nres, 2)
+            data = (data + [[]])[:nres]
+            data[1] = [dict(r) for r in data[0]]
+        opts = dict(format=fmt, add_filehash_to_path=hashpath)
         max_events = 3 * (nres + 1) + 2
         for k in range(max_events + 1):
             d = tempfile.mkdtemp(prefix='c19_')
@@ -271,6 +377,8 @@ def nat_dump_crashpoints(h):
                         import dataflows.processors.dumpers.to_path as tp
                         import dataflows.processors.dumpers.file_dumper as fd
                         from dataflows import Flow, dump_to_path
+                        if earlier:
+                            Flow(*[[dict(r) for r in rs] for rs in data], [{'z': 1}], dump_to_path(os.path.join(d, 'earlier'), **opts)).process()
                         cnt = [0]
 
                         def tick():
@@ -296,7 +404,7 @@ def nat_dump_crashpoints(h):
                             return real_unlink(p)
                         tp.shutil.copy = copy
                         fd.os.unlink = unlink
-                        Flow(*[[dict(r) for r in rs] for rs in data], dump_to_path(os.path.join(d, 'out'), format=fmt)).process()
+                        Flow(*[[dict(r) for r in rs] for rs in data], dump_to_path(os.path.join(d, 'out'), **opts)).process()
                     finally:
                         os._exit(0)
                 os.waitpid(pid, 0)
@@ -322,7 +430,8 @@ def nat_dump_crashpoints(h):
                                 ok = False
                                 note = 'file %s does not have the recorded size/hash' % r['path']
                                 break
-                h.check(ok, 'dataflows/processors/dumpers/dumper_base.py::DumperBase.process_resources', (fmt, data, 'kill at event', k),
+                h.check(ok, 'dataflows/processors/dumpers/dumper_base.py::DumperBase.process_resources',
+                        (fmt, data, 'earlier dump in the process' if earlier else 'first dump', 'hash in path' if hashpath else 'plain paths', 'kill at event', k),
                         'descriptor present => data files complete', note)
             finally:
                 shutil.rmtree(d, ignore_errors=True)
